@@ -45,6 +45,10 @@ fn main() {
         ["c05", "replay", path] => c05::replay(path),
         ["c05", "record", runs, path] => c05::record(runs.parse().unwrap(), path),
         ["c05", "jets", n, path] => c05::record_jets(n.parse().unwrap(), path),
+        ["c05", "eljets", n, t, path] => c05::record_el_jets(n.parse().unwrap(), t.parse().unwrap(), path),
+        ["c05", "sigjets", n, path] => c05::record_sig_jets(n.parse().unwrap(), path),
+        ["c05", "ecjets", n, path] => c05::record_ec_jets(n.parse().unwrap(), path),
+        ["c05", "hashjets", n, path] => c05::record_hash_jets(n.parse().unwrap(), path),
         ["c08", "replay", path] => c08::replay(path),
         ["c08", "record", runs, path] => c08::record(runs.parse().unwrap(), path),
         ["c12", "replay", path] => c12::replay(path),
